@@ -41,7 +41,7 @@ static void setup(Runner &r, const Tier &t) {
                 cmp(gr_seg_advance_X(s), gr_seg_advance_X(ref), "segment advance X not scaled"); cmp(gr_seg_advance_Y(s), gr_seg_advance_Y(ref), "segment advance Y not scaled");
                 for (size_t q = 0; q < ss.size() && q < rs.size(); ++q) {
                     cmp(gr_slot_origin_X(ss[q]), gr_slot_origin_X(rs[q]), "slot origin X not scaled"); cmp(gr_slot_origin_Y(ss[q]), gr_slot_origin_Y(rs[q]), "slot origin Y not scaled");
-                    cmp(gr_slot_advance_X(ss[q], face, font), gr_slot_advance_X(rs[q], nullptr, nullptr), "slot advance X not scaled"); cmp(gr_slot_advance_Y(ss[q], face, font), gr_slot_advance_Y(rs[q], nullptr, nullptr), "slot advance Y not scaled"); } }
+                    cmp(gr_slot_advance_X(ss[q], face, font), gr_slot_advance_X(rs[q], nullptr, nullptr), "slot advance X not scaled"); cmp(gr_slot_advance_X(ss[q], nullptr, font), gr_slot_advance_X(rs[q], nullptr, nullptr), "slot advance X (face NULL, unhinted font) not scaled"); cmp(gr_slot_advance_Y(ss[q], face, font), gr_slot_advance_Y(rs[q], nullptr, nullptr), "slot advance Y not scaled"); } }
             uint64_t w = uint64_t(worst * 1e9); if (w > ctl.counters[2]) ctl.counters[2] = w;
             ctl.counters[0] = ctl.counters[0] + 1;
             if (why) { JObj o; o.kv("font", fontname).kv("text_utf8_hex", hex(txt.data(), txt.size())).kv("dir", c.dir).kv("ppm", double(ppm)).kv("kind", "scaling").kv("why", why).kv("got", got).kv("want", want); report_fail(i, o); }
